@@ -632,13 +632,24 @@ pub fn pick_registry(w: &World, rng: &mut Rng, run: u64, full_runs: u64) -> (Str
             let e = rng.pick(&w.dups);
             (e.name.clone(), e.reg.clone())
         }
-        52..=69 => {
+        52..=63 => {
             let e = rng.pick(&w.families);
             let pairs = 1 + rng.usize_below(3);
             (
                 format!("derived:clash{pairs}:{}", e.name),
                 inject_path_clash(&e.reg, rng, pairs),
             )
+        }
+        64..=79 => {
+            // a seeded program of Rust-like definitions registered the way scale-info does
+            let s = rng.next_u64();
+            let r = crate::gen::random_registry(&mut Rng::new(s));
+            if rng.chance(1, 4) {
+                let pairs = 1 + rng.usize_below(2);
+                (format!("gen:{s:016x}+clash{pairs}"), inject_path_clash(&r, rng, pairs))
+            } else {
+                (format!("gen:{s:016x}"), r)
+            }
         }
         _ => {
             let k = 1 + rng.usize_below(5);
